@@ -33,6 +33,7 @@ def tasks(tier, seed=0):
            task(M, "ob_bv_val", "z3prim.bv-val/value", ["C26"], tier=tier),
            task(M, "ob_int_str", "z3prim.int<->str/round-trip", ["C26"], tier=tier),
            task(M, "ob_leaf_op", "modelcache.leaf-op/model-value", ["C26", "C11"], tier=tier),
+           task("vf.contracts.mixins", "ob_modelcache_copy", "mixin.ModelCacheMixin._copy/own-containers", ["C14", "C26", "C11"], tier=tier),
            task("vf.contracts.z3solve", "ob_batch_eval_tuple", "z3solve._batch_eval/tuple-positions", ["C26", "C11"], tier=tier),
            task("vf.contracts.mergesplit", "ob_mc_combine", "mixin.ModelCacheMixin.combine/cached-models-valid", ["C15", "C11", "C26"], tier=tier)]
     for s in ("FLOAT", "DOUBLE", "TINY"):
